@@ -15,9 +15,9 @@ import random
 PROPERTY = "C09"
 LEVEL = "exploration"
 RULE = (
-    "case = (program, event history, tie-break seed) from six families: generated flow hierarchies with random histories (len 8-30); "
+    "case = (program, event history, tie-break seed) from seven families: generated flow hierarchies with random histories (len 8-30); "
     "the same with ALL histories over a 3-letter alphabet up to length 5 (thorough 7) enumerated inside the case; C07 and/or formula programs; "
-    "C08 call-binding programs; C05 conflict programs; shipped library (core, timing, guardrails, llm, avatars + rails) under random UMIM event streams. "
+    "C08 call-binding programs; C05 conflict programs; reference programs (one `match $ref.Finished()/Started()` statement, in a loop and in a shared helper flow, revisited while $ref holds actions of different types and flows); shipped library (core, timing, guardrails, llm, avatars + rails) under random UMIM event streams. "
     "Every quiescent state reached is checked. non-trivial = some checked state had >=2 listening flows and (a forked flow or >=3 index entries); "
     "distinct = (family, program, history)"
 )
@@ -94,6 +94,36 @@ def cases(tier, seed):
     for k in range(64 if q else 600):
         i += 1
         yield {"id": i, "fam": "lib", "seed": base + k}
+    for k in range(300 if q else 4000):
+        i += 1
+        yield {"id": i, "fam": "refs", "seed": base + k, "api": k % 3 == 2}
+
+
+def gen_refs_program(rng):
+    """The same `match $ref.<Event>()` statement reached again and again - in a loop, and through one helper flow called
+    with different references - while $ref holds objects of different kinds (actions of 2-3 types, flows)."""
+    kinds = rng.sample(["A0Action", "A1Action", "A2Action", "fa", "fb"], rng.randint(2, 4))
+    waits = ["match $ref.Finished()", "await wait ref $ref", "match $ref.Finished() or E3()", "match $ref.Started()\n    match $ref.Finished()",
+             "when $ref.Finished()\n      $w = 1\n    or when E3()\n      $w = 2"]
+    wait = rng.choice(waits)
+    starts = []
+    for j, k in enumerate(kinds):
+        head = ("if" if j == 0 else "else if") + " $i %% %d == %d" % (len(kinds), j)
+        what = "start %s(n=$i) as $ref" % k if k.endswith("Action") else "start %s as $ref" % k
+        starts.append("    %s\n      %s" % (head, what))
+    n = rng.randint(2, 6)
+    extra = rng.choice(["", "  activate side\n", "  start side\n"])
+    src = (
+        "flow fa\n  match E1()\n\nflow fb\n  match E2()\n\n"
+        "flow wait ref $r\n  match $r.Finished()\n\n"
+        "flow side\n  start A%dAction(n=99) as $s\n  await wait ref $s\n  match E3()\n\n" % rng.randint(0, 2)
+        + "flow main\n" + extra + "  $i = 0\n  while $i < %d\n" % n + "\n".join(starts) + "\n    " + wait + "\n    $i = $i + 1\n  match Never()\n"
+    )
+    hist = []
+    for _ in range(rng.randint(6, 24)):
+        x = rng.random()
+        hist.append("FIN" if x < 0.55 else "E%d" % rng.randint(1, 3))
+    return src, hist, len(kinds)
 
 
 _W = {"states": 0, "problems": [], "facts": [], "hooked": 0}
@@ -280,6 +310,12 @@ def run_case(case):
         return _drive(g["src"], hist, case["seed"], base)
     if fam == "lib":
         return run_lib(case, base)
+    if fam == "refs":
+        src, hist, nk = gen_refs_program(rng)
+        base.update(key="refs:%s:%s" % (src, hist), sample={"family": fam, "program": src, "history": hist})
+        r = _drive(src, hist, case["seed"], base)
+        r.setdefault("observed", {})["reference_programs"] = 1
+        return r
     raise ValueError(fam)
 
 
